@@ -51,7 +51,7 @@ Definition judge (cs : list case) := judge_all judge1 cs.
 
 (* ---- after fixes/C18-render-before-write.patch has been applied --------------------------------
    Set JUDGE = "judge_fixed" in tie/props/c18.py: the model is then the repaired order (save_fixed),
-   there is no finding class left and the guard is trivial (Properties/C18.v: C18_fixed_*). *)
+   there is no finding class left and the guard is trivial (Properties/C18.v: C18_fixed_... theorems). *)
 Definition model_fixed_agrees (c : case) : bool :=
   let i := c_in c in
   let r := save_fixed i in
